@@ -544,7 +544,7 @@ pub fn run_evaluate(rep: &mut Report, driver: &str, workers: usize, thorough: bo
             vals.push(g.gen(d));
         }
     }
-    let rules: Vec<Expr> = vec![
+    let full_rules: Vec<Expr> = vec![
         reff("facts"),
         crate::codec::mk_un("some", reff("facts")),
         reff("a"),
@@ -552,13 +552,45 @@ pub fn run_evaluate(rep: &mut Report, driver: &str, workers: usize, thorough: bo
         crate::codec::mk_bin("add", lit(Value::Int(1)), lit(Value::Int(1))),
         call("g", reff("facts")),
     ];
+    // rulesets in which the input is read in exactly one syntactic position (inside a list / map literal, a branch, an
+    // operand, an argument, an access path …), or not at all: a shortcut that decides from the shape of the rules whether
+    // the input is needed at all must be right for every shape
+    let one = |e: Expr| vec![e];
+    let mut rulesets: Vec<Vec<Expr>> = vec![full_rules];
+    for r in [reff("a"), reff("facts")] {
+        rulesets.push(one(Expr::Vec(vec![lit(Value::Int(1)), r.clone()])));
+        rulesets.push(one(emap(vec![("k", r.clone())])));
+        rulesets.push(one(Expr::Vec(vec![Expr::Vec(vec![emap(vec![("k", r.clone())])])])));
+        rulesets.push(one(iff(lit(Value::Bool(true)), r.clone(), lit(Value::Int(1)))));
+        rulesets.push(one(iff(lit(Value::Bool(false)), lit(Value::Int(1)), r.clone())));
+        rulesets.push(one(crate::codec::mk_bin("eq", r.clone(), lit(Value::Int(1)))));
+        rulesets.push(one(crate::codec::mk_bin("eq", lit(Value::Int(1)), r.clone())));
+        rulesets.push(one(crate::codec::mk_bin("or", lit(Value::Bool(false)), crate::codec::mk_un("some", r.clone()))));
+        rulesets.push(one(crate::codec::mk_bin("contains", Expr::Vec(vec![r.clone()]), lit(Value::Int(1)))));
+        rulesets.push(one(crate::codec::mk_bin("contains", r.clone(), lit(Value::Int(1)))));
+        rulesets.push(one(crate::codec::mk_un("isnone", r.clone())));
+        rulesets.push(one(crate::codec::mk_un("not", crate::codec::mk_un("some", r.clone()))));
+        rulesets.push(one(call("g", r.clone())));
+        rulesets.push(one(call("g", Expr::Vec(vec![r.clone()]))));
+        rulesets.push(one(idxk(r.clone(), "b")));
+        rulesets.push(one(idxn(Expr::Vec(vec![r.clone()]), 0)));
+        rulesets.push(vec![lit(Value::Int(7)), crate::codec::mk_bin("div", lit(Value::Int(1)), lit(Value::Int(0))), Expr::Vec(vec![r.clone()])]);
+    }
+    rulesets.push(one(lit(Value::Int(7))));
+    rulesets.push(one(crate::codec::mk_bin("add", lit(Value::Int(1)), lit(Value::Int(1)))));
+    rulesets.push(one(call("g", lit(Value::Int(1)))));
+    rulesets.push(vec![]);
     let env = EnvSpec { syms: vec![], fns: vec![FnSpec::new("g", true, FnKind::Wrap)] };
+    let designed_n = designed().len();
+    let mut sr = StreamReport::new("evaluate-serializable", "RuleSet::evaluate(&T) for T over the serde data model (designed + random, incl. inputs that serialize to None, to non-maps, and that fail to serialize) with rules that read the input (facts, is_some(facts), a field, facts.b, a constant, a user function of facts) and 39 further rulesets that read the input in exactly one syntactic position (inside list / map literals, branches, operands, arguments, access paths) or not at all (constants, empty ruleset); compared with evaluate_value on the separately serialized value (the property's own clause) and with the model", false);
+    for (ri, rules) in rulesets.iter().enumerate() {
+    let vals_here: Vec<&SerVal> = if ri == 0 { vals.iter().collect() } else { vals.iter().take(designed_n + 60).collect() };
     let rules_s: String = rules.iter().map(|e| format!(" {}", enc_expr(e))).collect();
-    let reqs: Vec<String> = vals.iter().map(|v| format!("evalser\t(rules{})\t{}\t{}\t(oracle)", rules_s, enc_serval(v), env.enc())).collect();
+    let reqs: Vec<String> = vals_here.iter().map(|v| format!("evalser\t(rules{})\t{}\t{}\t(oracle)", rules_s, enc_serval(v), env.enc())).collect();
     let replies = par_batch(driver, workers, &reqs);
-    let mut sr = StreamReport::new("evaluate-serializable", "RuleSet::evaluate(&T) for T over the serde data model (designed + random, incl. inputs that serialize to None, to non-maps, and that fail to serialize) with rules that read the input (facts, is_some(facts), a field, facts.b, a constant, a user function of facts); compared with evaluate_value on the separately serialized value (the property's own clause) and with the model", false);
-    for (v, m) in vals.iter().zip(replies.iter()) {
-        let canon = enc_serval(v);
+    for (v, m) in vals_here.iter().zip(replies.iter()) {
+        let v: &SerVal = v;
+        let canon = format!("{}|{}", rules_s, enc_serval(v));
         sr.count(&canon, true);
         let shared = std::sync::Arc::new(Shared::default());
         let out = catch_unwind(AssertUnwindSafe(|| {
@@ -585,7 +617,7 @@ pub fn run_evaluate(rep: &mut Report, driver: &str, workers: usize, thorough: bo
         sr.hist("impl_outcome", if direct.starts_with("(outcomes") { "outcomes" } else if direct.starts_with("PANIC") { "panic" } else { "call-failed" });
         let model_vals = m.split('\t').next().unwrap_or("");
         let mut push = |pred: &str, sig: &str, model_out: &str| {
-            rep.add_finding(Finding { kind: "impl-violates-property".into(), stream: "evaluate-serializable".into(), case: format!("evalser\t{}", canon), human: format!("{:?}", v).chars().take(200).collect(), impl_out: direct.clone(), model_out: model_out.into(), predicate: pred.into(), signature: sig.into() })
+            rep.add_finding(Finding { kind: "impl-violates-property".into(), stream: "evaluate-serializable".into(), case: format!("evalser\t(rules{})\t{}", rules_s, enc_serval(v)), human: format!("{:?}", v).chars().take(200).collect(), impl_out: direct.clone(), model_out: model_out.into(), predicate: pred.into(), signature: sig.into() })
         };
         if direct.starts_with("PANIC") {
             push("evaluate(&T) must not panic", "C09 evaluate panic", model_vals);
@@ -595,6 +627,7 @@ pub fn run_evaluate(rep: &mut Report, driver: &str, workers: usize, thorough: bo
             // the serializer agrees with its model (C13's business otherwise) but the outcomes do not
             push("outcomes must equal the model's", "C09 evaluate model", model_vals);
         }
+    }
     }
     rep.streams.push(sr);
 }
